@@ -122,6 +122,7 @@ macro_rules! engine_proof {
     ($(#[$m:meta])* fn $name:ident() $body:block) => {
         #[kani::proof]
         #[kani::unwind(2)]
+        #[kani::stub(<crate::model::Value as std::clone::Clone>::clone, crate::verif_kani::common::stub_value_clone_scalar)]
         #[kani::stub(alloc::fmt::format, crate::verif_kani::common::stub_format)]
         #[kani::stub(std::hash::RandomState::new, stub_random_state_new)]
         #[kani::stub(regex::Regex::new, crate::verif_kani::common::stub_regex_new)]
@@ -143,6 +144,7 @@ macro_rules! engine_proof3 {
     ($(#[$m:meta])* fn $name:ident() $body:block) => {
         #[kani::proof]
         #[kani::unwind(3)]
+        #[kani::stub(<crate::model::Value as std::clone::Clone>::clone, crate::verif_kani::common::stub_value_clone_scalar)]
         #[kani::stub(alloc::fmt::format, crate::verif_kani::common::stub_format)]
         #[kani::stub(std::hash::RandomState::new, stub_random_state_new)]
         #[kani::stub(regex::Regex::new, crate::verif_kani::common::stub_regex_new)]
